@@ -57,15 +57,25 @@ def r03_2(chk, P, rule='R03.2'):
             continue
         loops = cfg.loops(F)
         for h, body in sorted(loops.items()):
-            t = F.blocks[h].get('term')
-            if not t or t.get('cond') is None:
-                continue
-            c = F.ex[F.strip_casts(t['cond'])]
-            if not (c['k'] == 'bin' and c['op'] == '=='):
-                continue
-            xl = F.ex[F.strip_casts(c['c'][0])]
-            sv = _constv(F, c['c'][1])
-            if xl['k'] != 'ref' or xl['decl'].get('kind') != 'var' or sv is None:
+            # the sentinel test: the loop head (`while(x==c)`) or a block of the body that can leave the loop (`do{..}while(x==c)`)
+            t = xl = sv = None
+            for tb_ in [h] + sorted(b_ for b_ in body if b_ != h and any(s_ is not None and s_ not in body for s_ in F.blocks[b_]['succs'])):
+                t_ = F.blocks[tb_].get('term')
+                if not t_ or t_.get('cond') is None:
+                    continue
+                c = F.ex[F.strip_casts(t_['cond'])]
+                if not (c['k'] == 'bin' and c['op'] == '=='):
+                    continue
+                xl_ = F.ex[F.strip_casts(c['c'][0])]
+                sv_ = _constv(F, c['c'][1])
+                if xl_['k'] != 'ref' or xl_['decl'].get('kind') != 'var' or sv_ is None:
+                    continue
+                # the loop goes on while the test holds
+                succs_ = F.blocks[tb_]['succs']
+                if len(succs_) == 2 and succs_[0] in body and (succs_[1] is None or succs_[1] not in body):
+                    t, xl, sv = t_, xl_, sv_
+                    break
+            if t is None:
                 continue
             xid = xl['decl']['id']
             # counters clamped at a bound inside the loop: V -= c ... if(V<0) V=0
